@@ -320,8 +320,8 @@ def c16_export(w, ev, slot):
         if ja != jb:
             w.fail('c16.export', 'equal tables give different JSON documents')
     else:
-        from .probes_io import h5_grammar_ok
-        if not h5_grammar_ok(ref):
+        from .probes_io import h5_grammar_ok, _group_md_text
+        if not h5_grammar_ok(ref) or _group_md_text(a) is False:
             return 'c16:ok(nogrammar)'
         dec = []
         for t in (a, b):
@@ -492,7 +492,13 @@ def c18_mapfile(w, ev, slot):
     sel = [i for k, i in enumerate(ids) if (salt >> k) & 1] or ids[:1]
     if not sel:
         return 'skip:no_safe_ids'
-    sel = sel + ['ghost-%d' % (salt % 5)] * ((a >> 1) & 1)
+    if (a >> 1) & 1:
+        # an id the table does not have: unrelated, or a longer id that has
+        # an existing id as its prefix
+        ghost = 'ghost-%d' % (salt % 5) if (a >> 2) & 1 else \
+            max(ids, key=len) + ('0', '_rerun')[(a >> 3) & 1]
+        if ghost not in ref.ids[ax]:
+            sel = sel + [ghost]
     cols = ['Treatment', 'Depth', 'pH', 'taxonomy', 'Paths', 'Note'][
         :2 + b % 5]
     header = ['SampleID'] + cols
